@@ -208,7 +208,16 @@ func runCfg(n *node, f *frame, funcNode, callNode *node) {
 		f.mutex.Lock()
 		f.recovered = recover()
 		for _, val := range f.deferred {
-			val[0].Call(val[1:])
+			// A deferred call which panics replaces the panic in flight, and
+			// the remaining deferred calls of the frame still run.
+			func() {
+				defer func() {
+					if r := recover(); r != nil {
+						f.recovered = r
+					}
+				}()
+				val[0].Call(val[1:])
+			}()
 		}
 		if f.recovered != nil {
 			oNode := originalExecNode(n, exec)
